@@ -30,6 +30,7 @@ type c14Case struct {
 	Ver     string   `json:"ver"`
 	Req     []string `json:"req"`
 	Granted []string `json:"granted"`
+	Dup     bool     `json:"dup"`
 	Exp     string   `json:"exp"`
 	Skew    int      `json:"skew"`
 	Allow   bool     `json:"allow"`
@@ -107,6 +108,9 @@ func c14Run(r *rand.Rand, c c14Case) c14Real {
 		exp = now.Add(-skew + time.Duration(1+r.IntN(1000))*time.Hour)
 	}
 	info := &auth.TokenInfo{Scopes: append([]string{}, c.Granted...), Expiration: exp, UserID: "u"}
+	if c.Dup {
+		info.Scopes = append(info.Scopes, c.Granted...)
+	}
 	r.Shuffle(len(info.Scopes), func(i, j int) { info.Scopes[i], info.Scopes[j] = info.Scopes[j], info.Scopes[i] })
 	verifier := func(ctx context.Context, token string, req *http.Request) (*auth.TokenInfo, error) {
 		out.VerCalled = true
@@ -124,6 +128,10 @@ func c14Run(r *rand.Rand, c c14Case) c14Real {
 			return nil, errors.New("database down")
 		case "nilinfo":
 			return nil, nil
+		case "invalid_info":
+			return info, fmt.Errorf("signature: %w", auth.ErrInvalidToken)
+		case "other_info":
+			return info, errors.New("key set unavailable")
 		}
 		panic("ver")
 	}
